@@ -1,7 +1,13 @@
 use crate::{CacheEntry, EvictionPolicy};
 use once_cell::sync::Lazy;
+#[cfg(not(feature = "verif"))]
 use parking_lot::lock_api::MutexGuard;
+#[cfg(not(feature = "verif"))]
 use parking_lot::{Mutex, RawMutex, RwLock};
+#[cfg(feature = "verif")]
+use crate::verif_sync::{Mutex, RawMutex, RwLock};
+#[cfg(feature = "verif")]
+use parking_lot::lock_api::MutexGuard;
 use std::collections::{HashMap, VecDeque};
 use std::fmt::Debug;
 
